@@ -198,13 +198,15 @@ def unit():
         Inst('GeoLineString.from_geojson', 'lineFromGeoJson', IMPORT_PARAMS, 'Except ShapeT'),
         Inst('MultiGeoPoint.from_geojson', 'mpointFromGeoJson', IMPORT_PARAMS, 'Except ShapeT'),
         Inst('MultiGeoLineString.from_geojson', 'mlineFromGeoJson', IMPORT_PARAMS, 'Except ShapeT'),
+        Inst('GeoPolygon.from_geojson', 'polygonFromGeoJson', IMPORT_PARAMS, 'Except ShapeT'),
+        Inst('MultiGeoPolygon.from_geojson', 'mpolyFromGeoJson', IMPORT_PARAMS, 'Except ShapeT'),
     ]
     METHODS = {}
     for i in insts:
         if i.params and i.params[0][0] == 'self' and i.params[0][1] != 'None':
             METHODS[(i.params[0][1], i.qual.split('.')[-1])] = i
     for t, lt in (('Pos', 'GV.GeoJson.Pos'), ('HoleSrc', 'GV.GeoJson.HoleSrc'), ('J', 'GV.GeoJson.J'), ('JObj', 'GV.GeoJson.Obj'),
-                  ('Str', 'String'), ('GjKw', 'Kw'), ('Nat', 'Nat'), ('ShapeT', 'GV.GeoJson.Shape')):
+                  ('Str', 'String'), ('GjKw', 'Kw'), ('Nat', 'Nat'), ('ShapeT', 'GV.GeoJson.Shape'), ('GjPolyV', 'GV.GeoJson.Poly')):
         py2lean.LEAN_TYPE.setdefault(t, lt)
     # the receiver records are declared in the generated file's header
     for t, lt in (('GjPolygon', 'PolygonS'), ('GjBox', 'BoxS'), ('GjCurved', 'CurvedS'), ('GjRing', 'RingS'), ('GjLine', 'LineS'),
@@ -364,11 +366,13 @@ def unit():
             return geom_of(tr, e, tr.expr(e.args[0]), kws)
         return f
 
-    def shape_of(tr, geom_text, kws):
-        dt, props = tr.expr(kws['dt']), tr.expr(kws['properties'])
+    def shape_of_vals(geom_text, dt, props):
         if dt.typ not in ('Opt TI',) or props.typ != 'JObj':
             raise Unsupported(f'shape constructor with dt: {dt.typ}, properties: {props.typ}')
         return Val(f'(GV.GeoJson.Shape.mk {geom_text} {dt.text} {props.text})', 'ShapeT')
+
+    def shape_of(tr, geom_text, kws):
+        return shape_of_vals(geom_text, tr.expr(kws['dt']), tr.expr(kws['properties']))
 
     def point_ctor(tr, e, x, kws):
         if x.typ != 'Pos' or 'holes' in kws:
@@ -396,7 +400,34 @@ def unit():
         m = tr.gensym('m')
         return shape_of(tr, f'(GV.GeoJson.SGeom.mline (({x.text}).map (fun {m} => {m}.vertices)))', kws)
 
-    CTORS = {'GeoPoint': ctor_shape(point_ctor), 'GeoLineString': ctor_shape(line_ctor), 'MultiGeoPoint': ctor_shape(mpoint_ctor),
+    def polygon_ctor(tr, e, x, kws):
+        # the outline goes through the translated constructor (`polygonInitDefault`); a hole object is its outline
+        if x.typ != 'List Pos':
+            raise Unsupported(f'GeoPolygon({x.typ})')
+        ctx = ' '.join(n for n, _t in tr.u.ctx_params)
+        init = Val(f'(polygonInitDefault {ctx} {_paren(x.text)})', 'List Pos')
+        init.raises = True
+        if not kws:
+            return init
+        holes = tr.expr(kws['holes']) if 'holes' in kws else Val('()', 'None')
+        if holes.typ not in ('List List Pos', 'None'):
+            raise Unsupported(f'GeoPolygon(holes=…) of type {holes.typ}')
+        hs = holes.text if holes.typ != 'None' else '[]'
+        if set(kws) == {'holes'}:
+            o = tr.expr_bind(init)
+            return Val(f'(GV.GeoJson.Poly.mk {o} {hs})', 'GjPolyV')
+        if set(kws) != {'holes', 'dt', 'properties'}:
+            raise Unsupported(f'`{ast.unparse(e)[:80]}`')
+        dt, props = tr.expr(kws['dt']), tr.expr(kws['properties'])       # arguments first, then the constructor's body
+        o = tr.expr_bind(init)
+        return shape_of_vals(f'(GV.GeoJson.SGeom.polygon (GV.GeoJson.Poly.mk {o} {hs}))', dt, props)
+
+    def mpoly_ctor(tr, e, x, kws):
+        if x.typ != 'List GjPolyV' or set(kws) != {'dt', 'properties'}:
+            raise Unsupported(f'MultiGeoPolygon({x.typ})')
+        return shape_of(tr, f'(GV.GeoJson.SGeom.mpoly {x.text})', kws)
+
+    CTORS = {'GeoPolygon': ctor_shape(polygon_ctor), 'MultiGeoPolygon': ctor_shape(mpoly_ctor), 'GeoPoint': ctor_shape(point_ctor), 'GeoLineString': ctor_shape(line_ctor), 'MultiGeoPoint': ctor_shape(mpoint_ctor),
              'MultiGeoLineString': ctor_shape(mline_ctor)}
 
     def j_default(node):
@@ -569,6 +600,10 @@ def unit():
         r.raises = True                      # ValueError on malformed text (the runtime's), TypeError on a non-string
         return r
 
+    def local_type(qual, name):
+        return {('GeoPolygon.from_geojson', 'rings'): 'List List Pos', ('GeoPolygon.from_geojson', 'holes'): 'List List Pos',
+                ('MultiGeoPolygon.from_geojson', 'shapes'): 'List GjPolyV'}.get((qual, name))
+
     def local_fn(qual, name):
         return {('get_dt_from_geojson_props', '_convert'): ([('dt', 'J'), ('_format', 'None')], 'Except Opt Dt')}.get((qual, name))
 
@@ -600,7 +635,7 @@ def unit():
                               'structures.py::PolygonBase.__init__')}
     hooks = {'isinstance': lambda typ: {'Pos': {'Coordinate'}}.get(typ), 'eq': eq_hook, 'truth': truth_hook, 'coerce': coerce_hook, 'to_j': to_j,
              'expr_stmt': expr_stmt, 'keywords': lambda tr, e: True, 'call': call_hook, 'init': init_hook, 'as_dict': as_dict,
-             'expr': expr_hook, 'local_fn': local_fn, 'or_dict': or_dict, 'iter': iter_hook, 'always_truthy': ('TI', 'Dt')}
+             'expr': expr_hook, 'local_fn': local_fn, 'or_dict': or_dict, 'iter': iter_hook, 'local_type': local_type, 'always_truthy': ('TI', 'Dt')}
     return Unit('SrcGeoJson', src, 'GV.Src.GeoJson',
                 ['GeoVerif.Model.GeoJson', 'GeoVerif.Model.PyPrelude', 'GeoVerif.Gen.SrcTime'], insts,
                 classes, pins=pins, header=HEADER, attr_types=attr, hooks=hooks, externals=srcunits._time_externals(),
